@@ -17,6 +17,11 @@ type shadowCell struct {
 	reads  map[int]int // thread -> clock of its last read since the last write
 	rFn    map[int]string
 	rL     map[int][]*value
+	// accesses made through sync/atomic: they do not conflict with each other, but a plain access
+	// that is unordered with an atomic one is a data race (the Go memory model and its race detector
+	// treat it so)
+	aW, aR   map[int]int // thread -> clock of its last atomic write / read
+	aFn      map[int]string
 }
 
 // A read lock protects against writers only: it is entered into the lockset under a derived key
@@ -89,6 +94,11 @@ func raceRead(addr *value) {
 	if s.wT >= 0 && !hb(t, s.wT, s.wC) && !commonLock(s.wL, readerView(t.locks)) {
 		reportRace("read", addr, s.wFn)
 	}
+	for u, c := range s.aW {
+		if !hb(t, u, c) {
+			reportRace("read", addr, s.aFn[u]+" (atomic)")
+		}
+	}
 	if s.reads == nil {
 		s.reads = map[int]int{}
 		s.rFn = map[int]string{}
@@ -142,8 +152,51 @@ func raceWrite(addr *value) {
 			}
 		}
 	}
+	for u, c := range s.aW {
+		if !hb(t, u, c) {
+			reportRace("write", addr, s.aFn[u]+" (atomic)")
+		}
+	}
+	for u, c := range s.aR {
+		if !hb(t, u, c) {
+			reportRace("write", addr, s.aFn[u]+" (atomic)")
+		}
+	}
 	s.wT, s.wC, s.wFn, s.wL = t.id, clockOf(t), curFn(), heldLocks()
 	s.reads, s.rFn, s.rL = nil, nil, nil
+}
+
+// raceAtomic records an access made through sync/atomic (after its acquire, before its release):
+// it conflicts with plain accesses of other goroutines that are not ordered before it.
+func raceAtomic(addr *value, write bool) {
+	if !raceActive() || addr == nil {
+		return
+	}
+	t := sched.cur
+	s := shadows[addr]
+	if s == nil {
+		s = &shadowCell{wT: -1}
+		shadows[addr] = s
+	}
+	if s.wT >= 0 && !hb(t, s.wT, s.wC) {
+		reportRace("atomic access", addr, s.wFn)
+	}
+	if write {
+		for u, c := range s.reads {
+			if !hb(t, u, c) {
+				reportRace("atomic write", addr, s.rFn[u])
+			}
+		}
+	}
+	if s.aW == nil {
+		s.aW, s.aR, s.aFn = map[int]int{}, map[int]int{}, map[int]string{}
+	}
+	if write {
+		s.aW[t.id] = clockOf(t)
+	} else {
+		s.aR[t.id] = clockOf(t)
+	}
+	s.aFn[t.id] = curFn()
 }
 
 func reportRace(kind string, addr *value, otherFn string) {
